@@ -519,7 +519,7 @@ func defineFieldMap(ttype Named, fieldMap Fields) (FieldDefinitionMap, error) {
 			continue
 		}
 		err = invariantf(
-			field.Type != nil,
+			!isNilType(field.Type),
 			`%v.%v field type must be Output Type but got: %v.`, ttype, fieldName, field.Type,
 		)
 		if err != nil {
@@ -558,7 +558,7 @@ func defineFieldMap(ttype Named, fieldMap Fields) (FieldDefinitionMap, error) {
 				return resultFieldMap, err
 			}
 			if err = invariantf(
-				arg.Type != nil,
+				!isNilType(arg.Type),
 				`%v.%v(%v:) argument type must be Input Type but got: %v.`, ttype, fieldName, argName, arg.Type,
 			); err != nil {
 				return resultFieldMap, err
@@ -1183,10 +1183,7 @@ func NewInputObject(config InputObjectConfig) *InputObject {
 }
 
 func (gt *InputObject) defineFieldMap() InputObjectFieldMap {
-	var (
-		fieldMap InputObjectConfigFieldMap
-		err      error
-	)
+	var fieldMap InputObjectConfigFieldMap
 	switch fields := gt.typeConfig.Fields.(type) {
 	case InputObjectConfigFieldMap:
 		fieldMap = fields
@@ -1206,11 +1203,11 @@ func (gt *InputObject) defineFieldMap() InputObjectFieldMap {
 		if fieldConfig == nil {
 			continue
 		}
-		if err = assertValidName(fieldName); err != nil {
+		if err := assertValidName(fieldName); err != nil {
 			continue
 		}
 		if gt.err = invariantf(
-			fieldConfig.Type != nil,
+			!isNilType(fieldConfig.Type),
 			`%v.%v field type must be Input Type but got: %v.`, gt, fieldName, fieldConfig.Type,
 		); gt.err != nil {
 			return resultFieldMap
@@ -1355,6 +1352,15 @@ func (gl *NonNull) String() string {
 }
 func (gl *NonNull) Error() error {
 	return gl.err
+}
+
+// isNilType reports a nil interface value or a nil pointer held in one.
+func isNilType(t Type) bool {
+	if t == nil {
+		return true
+	}
+	v := reflect.ValueOf(t)
+	return v.Kind() == reflect.Ptr && v.IsNil()
 }
 
 var NameRegExp = regexp.MustCompile("^[_a-zA-Z][_a-zA-Z0-9]*$")
